@@ -99,9 +99,11 @@ Fixpoint split_on (sep : N) (l cur : str) : list str :=
   end.
 
 (* rules: "*" for the default set, else comma-separated rule names *)
-Definition select_rules (s : schema) (doc : qdoc) (rules : str) : list rinst :=
-  if str_eqb rules (b "*") then default_rules s doc
-  else flat_map (fun n => match rule_by_name s doc n with Some r => [r] | None => [] end) (split_on 44 rules []).
+(* a leading "~": the document object has been validated before (its annotations are in place) *)
+Definition select_rules (s : schema) (doc : qdoc) (rules0 : str) : list rinst :=
+  let '(pre, rules) := match rules0 with 126%N :: r => (true, r) | _ => (false, rules0) end in
+  if str_eqb rules (b "*") then default_rules pre s doc
+  else flat_map (fun n => match rule_by_name pre s doc n with Some r => [r] | None => [] end) (split_on 44 rules []).
 
 Definition dump_validate_with (d : dev) (pre : pres sdoc) (rules query : str) (srcs : list str) : str :=
   match load_schema_with d pre srcs with
